@@ -1,4 +1,5 @@
 import ElfiVerif.Drive.C15
+import ElfiVerif.Drive.C13
 
 /-!
 Line-protocol driver: one JSON request per line on stdin (`{"op": "<Cxx.name>", …}`), one JSON answer
@@ -8,7 +9,7 @@ per line on stdout (`{"ok": …}` or `{"error": "…"}`).  Run with
 open Lean ElfiVerif.Drive
 
 def allHandlers : List (String × H) :=
-  ElfiVerif.Drive.C15.handlers
+  ElfiVerif.Drive.C15.handlers ++ ElfiVerif.Drive.C13.handlers
 
 def handleLine (line : String) : String :=
   match Json.parse line with
